@@ -39,12 +39,7 @@ func runC15(c *kit.Ctx) {
 	// ---- R1 ---------------------------------------------------------------
 	c.StartRule("R1", "writer and reader agree on the block framing", 6)
 	{
-		var lenParam *ssa.Parameter
-		for _, pa := range comp.Params {
-			if pa.Name() == "uncompressedLen" {
-				lenParam = pa
-			}
-		}
+		lenParam := paramOfType(comp, "uint32", 0)
 		var puts []*ssa.Call
 		kit.Instrs(comp, func(in ssa.Instruction) {
 			if call, ok := in.(*ssa.Call); ok && strings.HasSuffix(kit.CalleeName(call), "bigEndian).PutUint32") {
@@ -270,12 +265,7 @@ func runC15(c *kit.Ctx) {
 				c.Bad(fn, "append-result", r.Pos(), "the codec does not return append(dst, chunk...)", "")
 				return
 			}
-			var dstP *ssa.Parameter
-			for _, pa := range fn.Params {
-				if pa.Name() == "dst" {
-					dstP = pa
-				}
-			}
+			dstP := paramOfType(fn, "[]byte", 1) // (src, dst []byte)
 			cv, isCv := r.Results[1].(*ssa.Convert)
 			good := ap.Call.Args[0] == ssa.Value(dstP) && isCv && kit.LenOf(cv.X) != nil && kit.Same(kit.LenOf(cv.X), ap.Call.Args[1])
 			c.Check(good, fn, "append-and-length", r.Pos(), "returns append(dst, chunk...) and uint32(len(chunk)) of the same chunk", "the codec reports a length that is not the length of what it appended to dst")
